@@ -198,7 +198,7 @@ T_RANGE = [
     'COUNT({R})+COUNTA({R})', 'AVERAGE({R})+{a}',
     'COUNTIF({R},{a})', 'COUNTIF({R},TRUE)', 'COUNTIF({R},"true")',
     'COUNTIF({R},1)', 'COUNTIF({R},"1")', 'COUNTIF({R},"<>0")',
-    'COUNTIF({R},"abc")', 'COUNTIF({R},"ABC")',
+    'COUNTIF({R},"abc")', 'COUNTIF({R},"ABC")', '{R}', '{R}',
 ]
 
 
@@ -496,6 +496,28 @@ def gen_world(rng, n_inputs=None, n_formulas=None, sheets=None, names=True,
         deps[fa] = list(members)
         level[fa] = 1
         ranges_used[fa] = [f'{s}!H1:H{L}']
+
+    if sparse and rng.random() < 0.5:
+        # ... and a wide, mostly empty row that runs from column X past Z
+        s = rng.choice([x for x in sheet_list if x not in odd])
+        cols = ['X', 'Y', 'Z', 'AA', 'AB', 'AC']
+        members = [f'{s}!{c}9' for c in cols]
+        for c in rng.sample(cols, rng.randint(2, 4)):
+            a = f'{s}!{c}9'
+            cells[a] = rng.choice([1, 2, 5, 10, 0, False, 0.5])
+            level[a] = 0
+            deps[a] = []
+            order.append(a)
+        reserved.update(m for m in members if m not in cells)
+        sheet = rng.choice([x for x in sheet_list if x not in odd])
+        fa = place(sheet)
+        rr = 'X9:AC9' if sheet == s and not qualify_all else f'{s}!X9:AC9'
+        cells[fa] = '=' + rng.choice(
+            ['SUM({R})', 'COUNT({R})', 'MAX({R})', 'COUNTA({R})',
+             'AVERAGE({R})']).format(R=rr)
+        deps[fa] = list(members)
+        level[fa] = 1
+        ranges_used[fa] = [f'{s}!X9:AC9']
 
     wstale = {}
     if stale and rng.random() < 0.5:
